@@ -902,7 +902,7 @@ def gen_chp(env, nodes, grid_freq="h", cls=None, need_bool=False):
             kw["time_already_off"] = rng.choice([1, 2])
     if kw.get("time_already_running", 0) > 0:
         kw["last_dispatch"] = round(max(mn, mx * 0.5), 1)
-    if rng.random() < 0.15 and mn > 0:
+    if rng.random() < getattr(env, "ramp_p", 0.15) and mn > 0:
         k = rng.choice([1, 2])
         lo = [round(mn * (i + 1) / (k + 1), 2) for i in range(k)]
         kw["start_ramp_lower_bounds"] = lo
@@ -910,8 +910,13 @@ def gen_chp(env, nodes, grid_freq="h", cls=None, need_bool=False):
         if rng.random() < 0.5:
             kw["shutdown_ramp_lower_bounds"] = list(reversed(lo))
             kw["shutdown_ramp_upper_bounds"] = [round(x * 1.2, 2) for x in reversed(lo)]
-        if rng.random() < 0.4:
+        if rng.random() < 0.5:
             kw["ramp_freq"] = grid_freq
+            if rng.random() < 0.5:
+                # ramps as float arrays (a Sequence too; EAO handles them when ramp_freq equals the grid frequency)
+                for k_ in ("start_ramp_lower_bounds", "start_ramp_upper_bounds", "shutdown_ramp_lower_bounds", "shutdown_ramp_upper_bounds"):
+                    if k_ in kw:
+                        kw[k_] = t_nd(kw[k_])
     if has_fuel:
         if rng.random() < 0.7:
             kw["fuel_efficiency"] = gen_vec(env, 0.3, 0.9, "fe", p_scalar=0.8)
